@@ -202,6 +202,12 @@ impl<'h> FindMatchesImpl<'h> {
         new_position
     }
 
+    /// Retrieve the offset in bytes at which the char indices iterator was started, i.e. the
+    /// offset set by `with_offset` or `set_offset`.
+    pub(crate) fn start_offset(&self) -> usize {
+        self.offset
+    }
+
     /// Retrieve the total offset of the char indices iterator in bytes.
     pub(crate) fn offset(&self) -> usize {
         self.last_position + self.offset
